@@ -9,6 +9,7 @@ from ..core import FUNC, call_attr, calls_in, const, dotted, is_const, kwarg, no
 EXPLANATION = [
     'C06.lmp-pending: Controller.send_lmp_packet returns, on every path, a future created by that very call and registers it under (peer, opcode): a second request to the same peer can never be resolved by the answer to an earlier one.',
     'C06.pending-owner: a pending-procedure slot of the controller (pending_le_connection, ...) is cleared only in functions that read it first, i.e. by the code that concludes or cancels that very procedure.',
+    'C06.adv-address: the address an advertiser announces (and against which connect requests are matched) is, with a one-level inlining of controller helpers, the controller public address or the random address configured for that very advertiser (controller-wide for legacy advertising, per set for extended advertising), selected by own_address_type; the per-set writer stores into the set named by the command.',
     'C06.addr-origin: the identity under which a controller stores an LE connection (the peer\'s address taken from the opposite '
     'field of the connect PDU) is the identity every later sender uses: LL control PDUs and ACL data are sent from the connection\'s '
     'own self_address, and receivers look connections up by that sender address.',
@@ -158,6 +159,62 @@ def adv_dataflow(ctx):
     R.check(len(written) >= 2, rule, f'{CTRL} | set-data handlers', f'{sorted(written)}', f'only {sorted(written)} recognised')
 
 
+def adv_address(ctx):
+    """The address each advertiser announces comes from its own configuration: the controller's public address,
+    or (legacy) the controller's random address / (extended) the random address set for *that* advertising set."""
+    R, p = ctx.r, ctx.p
+    rule = 'C06.adv-address'
+    ctl = p.cls(CTRL)
+    EXPECT = {
+        'bumble.controller.LegacyAdvertiser': {'self.controller.public_address', 'self.controller.random_address'},
+        'bumble.controller.AdvertisingSet': {'None', 'self.controller.public_address', 'self.random_address'},
+    }
+
+    def returns(fn, prefix='', depth=1):
+        out = set()
+        for n in walk_local(fn):
+            if isinstance(n, ast.Return):
+                v = n.value
+                vals = [v.body, v.orelse] if isinstance(v, ast.IfExp) else [v]
+                for x in vals:
+                    if x is None:
+                        out.add('None')
+                    elif isinstance(x, ast.Call) and (dotted(x.func) or '').startswith('self.controller.') and depth and ctl is not None and (dotted(x.func) or '').split('.')[-1] in ctl.methods:
+                        out |= returns(ctl.methods[(dotted(x.func)).split('.')[-1]], 'self.controller.', depth - 1)
+                    else:
+                        t = norm(x)
+                        out.add(prefix + t[5:] if prefix and t.startswith('self.') else t)
+        return out
+    for q, expect in EXPECT.items():
+        ci = p.cls(q)
+        fn = ci.methods.get('address') if ci else None
+        if fn is None:
+            R.bad(rule, q + '.address', 'anchor missing')
+            continue
+        got = returns(fn)
+        R.check(got == expect, rule, q + '.address | sources', f'announces one of {sorted(expect)}', f'the advertiser address is taken from {sorted(got)} (expected {sorted(expect)}): an advertiser configured with its own random address is announced under, and answers connection requests for, another address', p.loc(fn))
+        tests = [norm(t.test) for t in ast.walk(fn) if isinstance(t, (ast.If, ast.IfExp))]
+        if ctl is not None:
+            for c in calls_in(fn):
+                nm = (dotted(c.func) or '').split('.')[-1]
+                if (dotted(c.func) or '').startswith('self.controller.') and nm in ctl.methods:
+                    tests += [norm(t.test) for t in ast.walk(ctl.methods[nm]) if isinstance(t, (ast.If, ast.IfExp))]
+        R.check(any('own_address_type' in t and 'PUBLIC' in t for t in tests), rule, q + '.address | selector', 'selected by own_address_type (public or not)', f'address selection is not by own_address_type: {tests}', p.loc(fn))
+    # the writer of the per-set random address stores into the set looked up by the command's handle
+    w = ctl.methods.get('on_hci_le_set_advertising_set_random_address_command') if ctl else None
+    if w is None:
+        R.bad(rule, f'{CTRL}.on_hci_le_set_advertising_set_random_address_command', 'anchor missing')
+    else:
+        st = [norm(n) for n in walk_local(w) if isinstance(n, ast.Assign) and isinstance(n.targets[0], ast.Attribute) and n.targets[0].attr == 'random_address']
+        R.check(st == ['self.advertising_sets[handle].random_address = command.random_address'] and 'handle = command.advertising_handle' in norm(w), rule, f'{CTRL}.on_hci_le_set_advertising_set_random_address_command | store',
+                'stores the address in the set named by the command', f'per-set random address store changed: {st}', p.loc(w))
+    # receivers compare the requested address against the same property
+    ci_ = ctl.methods.get('on_le_connect_ind') if ctl else None
+    if ci_ is not None:
+        cmp_ = [norm(n) for n in ast.walk(ci_) if isinstance(n, ast.Compare) and 'packet.advertiser_address' in norm(n)]
+        R.check(len(cmp_) >= 2 and all('.address' in c for c in cmp_), rule, f'{CTRL}.on_le_connect_ind | match', f'connect requests are matched against the advertisers\' announced address ({len(cmp_)} comparisons)', f'connect request matching changed: {cmp_}', p.loc(ci_))
+
+
 def handles(ctx):
     R, p = ctx.r, ctx.p
     rule = 'C06.handles'
@@ -283,6 +340,7 @@ RULES = [
     ('C06.addr-origin', addr_origin),
     ('C06.waiter-match', waiter_match),
     ('C06.adv-dataflow', adv_dataflow),
+    ('C06.adv-address', adv_address),
     ('C06.handles', handles),
     ('C06.disconnect-both', disconnect_both),
 ]
